@@ -219,13 +219,64 @@ func exportedAlgorithms(p *Prog) []algoValue {
 func funcValueName(v ssa.Value) string {
 	switch x := v.(type) {
 	case *ssa.Function:
-		return x.String()
+		return forwardedTo(x).String()
 	case *ssa.MakeClosure:
-		return x.Fn.String()
+		return forwardedTo(x.Fn.(*ssa.Function)).String()
 	case *ssa.ChangeType:
 		return funcValueName(x.X)
 	}
 	return ""
+}
+
+// forwardedTo: fn does nothing but hand its own parameters, in order, to one statically known function and return
+// that function's results (a function literal written around a function value, the thunk of a method expression):
+// that function; otherwise fn itself.
+func forwardedTo(fn *ssa.Function) *ssa.Function {
+	for i := 0; i < 3; i++ {
+		if fn == nil || len(fn.Blocks) != 1 || len(fn.FreeVars) != 0 {
+			return fn
+		}
+		var call *ssa.Call
+		okShape := true
+		for _, in := range fn.Blocks[0].Instrs {
+			switch x := in.(type) {
+			case *ssa.Call:
+				if call != nil {
+					okShape = false
+				}
+				call = x
+			case *ssa.Extract, *ssa.Return, *ssa.DebugRef:
+			case *ssa.Alloc, *ssa.Store, *ssa.UnOp:
+				// the spill of a value receiver the thunk hands on
+			default:
+				okShape = false
+			}
+		}
+		if !okShape || call == nil || call.Call.StaticCallee() == nil || len(call.Call.Args) > len(fn.Params) {
+			return fn
+		}
+		// every argument is one of fn's own parameters, each used once, in their order (an unused receiver may be dropped)
+		next := 0
+		for _, a := range call.Call.Args {
+			found := false
+			for k := next; k < len(fn.Params); k++ {
+				q := fn.Params[k]
+				isQ := Resolve(a) == ssa.Value(q) || a == ssa.Value(q)
+				if ld, ok := a.(*ssa.UnOp); ok && !isQ {
+					isQ = isParamOrSpill(ld.X, q)
+				}
+				if isQ {
+					found, next = true, k+1
+					break
+				}
+			}
+			if !found {
+				return fn
+			}
+		}
+		fn = call.Call.StaticCallee()
+	}
+	return fn
 }
 
 // registeredSources: the exported values (variable or constructor names) a registration argument can denote: the
@@ -412,6 +463,7 @@ func ruleC10(r *Report) {
 				} else if f, ok := fv.(*ssa.Function); ok {
 					fn = f
 				}
+				fn = forwardedTo(fn)
 				c2 := fmt.Sprintf("%s: %s of %s", a.Name, fld, uri)
 				if fn == nil {
 					r.Bad("C10.params", c2, posOf(p, a), "not a function literal")
@@ -606,8 +658,8 @@ func flowsByValue(src, dst ssa.Value) bool {
 
 func checkC10Framing(r *Report, p *Prog) {
 	for _, tn := range []string{"CBC", "GCM"} {
-		enc := p.MustFunc("xmlenc", tn, "Encrypt")
-		dec := p.MustFunc("xmlenc", tn, "Decrypt")
+		enc := p.Worker("xmlenc", tn, "Encrypt")
+		dec := p.Worker("xmlenc", tn, "Decrypt")
 		ae, ad := NewAnalysis(p), NewAnalysis(p)
 		fe := ae.Ctx(enc)
 		r.Fn(p.FnName(enc))
@@ -858,7 +910,7 @@ func callsModuleHelper(p *Prog, fn *ssa.Function, pred func(*ssa.Function) bool)
 
 func checkC10Digest(r *Report, p *Prog) {
 	rule := "C10.digest"
-	fn := p.MustFunc("xmlenc", "RSA", "Decrypt")
+	fn := p.Worker("xmlenc", "RSA", "Decrypt")
 	a := NewAnalysis(p)
 	// helpers of the package are analysed as part of Decrypt (the digest choice may be factored out)
 	a.Inline = func(f *ssa.Function) bool {
@@ -962,7 +1014,7 @@ func checkC10Digest(r *Report, p *Prog) {
 	useCond := B.True
 	for _, b := range fn.Blocks {
 		for _, in := range b.Instrs {
-			if c, ok := in.(*ssa.Call); ok && c.Call.StaticCallee() == nil && !c.Call.IsInvoke() && len(c.Call.Args) > 0 && strings.HasPrefix(fc.AP(c.Call.Args[0]), "RSA") {
+			if c, ok := in.(*ssa.Call); ok && c.Call.StaticCallee() == nil && !c.Call.IsInvoke() && handedReceiver(fc, c) != nil {
 				useCond = fc.Cond(b)
 			}
 		}
@@ -1001,8 +1053,12 @@ func checkC10Digest(r *Report, p *Prog) {
 		v := Resolve(ret.Results[0])
 		if ex, ok := v.(*ssa.Extract); ok {
 			if c, ok := ex.Tuple.(*ssa.Call); ok && c.Call.StaticCallee() == nil && !c.Call.IsInvoke() {
-				okE := len(c.Call.Args) > 0 && strings.HasPrefix(fc.AP(c.Call.Args[0]), "RSA")
-				r.Check(okE, rule, p.FnName(fn)+": key decrypter runs with the chosen digest", p.InstrPos(c), fc.AP(c.Call.Args[0]), "the key decrypter is not invoked on the value whose DigestMethod was selected")
+				hv := handedReceiver(fc, c)
+				got := "-"
+				if hv != nil {
+					got = fc.AP(hv)
+				}
+				r.Check(hv != nil, rule, p.FnName(fn)+": key decrypter runs with the chosen digest", p.InstrPos(c), got, "the key decrypter is not invoked on the value whose DigestMethod was selected")
 			}
 		}
 	}
@@ -1057,7 +1113,7 @@ func digestParamHash(p *Prog, fn *ssa.Function, fld string, hash ssa.Value) bool
 // a gate that is right for at most one of the ciphers behind the type: conforming ciphertexts of the others are refused.
 func checkLengthGates(r *Report, p *Prog, rule string) {
 	for _, tn := range []string{"CBC", "GCM"} {
-		dec := p.MustFunc("xmlenc", tn, "Decrypt")
+		dec := p.Worker("xmlenc", tn, "Decrypt")
 		for _, f := range helperRegion(p, dec, 2) {
 			a := NewAnalysis(p)
 			fc := a.Ctx(f)
@@ -1098,7 +1154,7 @@ var constTokenRe = regexp.MustCompile(`c:(\d+)`)
 // helpers that compares the length of a byte string with anything but zero refuses conforming wrapped keys for some key
 // sizes or some content-key sizes.
 func checkWrappedKeyLength(r *Report, p *Prog, rule string) {
-	dec := p.MustFunc("xmlenc", "RSA", "Decrypt")
+	dec := p.Worker("xmlenc", "RSA", "Decrypt")
 	for _, f := range helperRegion(p, dec, 3) {
 		a := NewAnalysis(p)
 		fc := a.Ctx(f)
@@ -1159,7 +1215,7 @@ func mentionsByteLen(v ssa.Value, depth int) bool {
 // element names no digest"). RSA.Encrypt names the digest it wrapped the key with: the ds:DigestMethod element is
 // created under no condition but e.DigestMethod != nil, and its Algorithm attribute is e.DigestMethod.Algorithm().
 func checkDigestAdvertised(r *Report, p *Prog, rule string) {
-	fn := p.MustFunc("xmlenc", "RSA", "Encrypt")
+	fn := p.Worker("xmlenc", "RSA", "Encrypt")
 	r.Fn(p.FnName(fn))
 	rg := NewRegion(p, fn, 2)
 	a := NewAnalysis(p)
@@ -1297,4 +1353,38 @@ func checkCipherStateless(r *Report, p *Prog, rule string) {
 		}
 		r.Check(bad == "", rule, cons, p.Pos(fn.Pos()), "no package-level variable is both read and written on this path", bad+": what one algorithm value remembered is handed to another (two algorithms that share a key length produce each other's ciphertext under their own identifier)")
 	}
+}
+
+// handedReceiver: the argument of call c that is the method's own receiver value (access path rooted at the receiver's
+// type), given directly or as a field of a parameter object built for the call.
+func handedReceiver(fc *FuncCtx, c *ssa.Call) ssa.Value {
+	recv := fc.Fn.Signature.Recv()
+	if recv == nil {
+		return nil
+	}
+	rn := namedOf(recv.Type())
+	if rn == nil {
+		return nil
+	}
+	// (the receiver itself, or a field read from it: e.keyDecrypter(e.DigestMethod, ...))
+	is := func(v ssa.Value) bool {
+		ap := fc.AP(v)
+		return ap == rn.Obj().Name() || strings.HasPrefix(ap, rn.Obj().Name()+".") || strings.HasPrefix(ap, rn.Obj().Name()+"#")
+	}
+	for _, a := range c.Call.Args {
+		if is(a) {
+			return a
+		}
+		st := unexportedStruct(a.Type())
+		ld, isLd := a.(*ssa.UnOp)
+		if st == nil || !isLd {
+			continue
+		}
+		for f := 0; f < st.NumFields(); f++ {
+			if v := literalFieldValue(ld.X, []int{f}, 0); v != nil && is(v) {
+				return v
+			}
+		}
+	}
+	return nil
 }
